@@ -158,3 +158,104 @@ def norm_construct(fnode: ast.AST, *nodes) -> str:
                 x.id = ren[x.id]
         out.append(ast.unparse(c))
     return " :: ".join(out)
+
+
+# --------------------------------------------------------------------------------------------------------------------
+# views of a function that do not depend on how its author split it up or named temporaries
+def fn_view(project: Project, fi: FunctionInfo) -> ast.AST:
+    """The function's definition with private helpers inlined (see core/inline.py)."""
+    from ..core.inline import inlined
+    return inlined(project, fi)
+
+
+def single_assignments(fnode: ast.AST) -> Dict[str, ast.expr]:
+    """Local names bound exactly once, by a plain `name = <expr>` (not a parameter, loop target, augmented assignment...)."""
+    stores: Dict[str, int] = {}
+    rhs: Dict[str, ast.expr] = {}
+    params = set()
+    if isinstance(fnode, (ast.FunctionDef, ast.AsyncFunctionDef)):
+        a = fnode.args
+        params = {x.arg for x in a.posonlyargs + a.args + a.kwonlyargs}
+        if a.vararg:
+            params.add(a.vararg.arg)
+        if a.kwarg:
+            params.add(a.kwarg.arg)
+    for n in ast.walk(fnode):
+        if isinstance(n, ast.Name) and isinstance(n.ctx, (ast.Store, ast.Del)):
+            stores[n.id] = stores.get(n.id, 0) + 1
+        if isinstance(n, ast.Assign) and len(n.targets) == 1 and isinstance(n.targets[0], ast.Name):
+            rhs[n.targets[0].id] = n.value
+        elif isinstance(n, ast.AnnAssign) and isinstance(n.target, ast.Name) and n.value is not None:
+            rhs[n.target.id] = n.value
+        elif isinstance(n, ast.AugAssign) and isinstance(n.target, ast.Name):
+            stores[n.target.id] = stores.get(n.target.id, 0) + 1
+    return {k: v for k, v in rhs.items() if stores.get(k) == 1 and k not in params}
+
+
+def expand_locals(fnode: ast.AST, expr: ast.AST, depth: int = 8, defs: Optional[Dict[str, ast.expr]] = None) -> ast.AST:
+    """Copy of expr with singly-assigned local names replaced by their defining expressions (recursively)."""
+    import copy
+    if defs is None:
+        defs = single_assignments(fnode)
+
+    class T(ast.NodeTransformer):
+        def __init__(self, d):
+            self.d = d
+
+        def visit_Name(self, n):
+            if isinstance(n.ctx, ast.Load) and n.id in defs and self.d > 0:
+                return T(self.d - 1).visit(copy.deepcopy(defs[n.id]))
+            return n
+    return T(depth).visit(copy.deepcopy(expr))
+
+
+def canon_text(fnode: ast.AST, expr: ast.AST) -> str:
+    """Text of expr after expanding singly-assigned locals and renaming the remaining locals positionally."""
+    e = expand_locals(fnode, expr)
+    return norm_construct(fnode, e)
+
+
+def bind_call(callee_node: ast.AST, call: ast.Call, receiver: bool = False) -> Dict[str, ast.expr]:
+    """Map the callee's parameter names to the argument expressions of this call (no star arguments)."""
+    a = callee_node.args
+    pos = [x.arg for x in a.posonlyargs + a.args]
+    if receiver:
+        pos = pos[1:]
+    out: Dict[str, ast.expr] = {}
+    for k, v in enumerate(call.args):
+        if isinstance(v, ast.Starred):
+            break
+        if k < len(pos):
+            out[pos[k]] = v
+    for kw in call.keywords:
+        if kw.arg is not None:
+            out[kw.arg] = kw.value
+    return out
+
+
+def enclosing_iterations(fnode: ast.AST, inner: ast.AST) -> List[Tuple[ast.AST, ast.AST]]:
+    """(target, iterable) of every `for` loop / comprehension generator that encloses `inner`, outermost first."""
+    out: List[Tuple[ast.AST, ast.AST]] = []
+
+    def contains(n):
+        return any(x is inner for x in ast.walk(n))
+
+    def rec(n):
+        for ch in ast.iter_child_nodes(n):
+            if not contains(ch):
+                continue
+            if isinstance(ch, ast.For):
+                if any(contains(x) for x in ch.body + ch.orelse):
+                    out.append((ch.target, ch.iter))
+            elif isinstance(ch, (ast.ListComp, ast.SetComp, ast.GeneratorExp, ast.DictComp)):
+                elts = [ch.elt] if not isinstance(ch, ast.DictComp) else [ch.key, ch.value]
+                in_elt = any(contains(x) for x in elts)
+                for k, g in enumerate(ch.generators):
+                    later = any(contains(x) for g2 in ch.generators[k + 1:] for x in [g2.iter] + g2.ifs) or \
+                        any(contains(x) for x in g.ifs)
+                    if in_elt or later:
+                        out.append((g.target, g.iter))
+            rec(ch)
+            return
+    rec(fnode)
+    return out
